@@ -7,6 +7,10 @@ props = [json.loads(l) for l in open(os.path.join(here, 'properties.jsonl'))]
 # id -> (technique, level text, level note, design ref)
 claimed = {
 
+ 'C19': ('effect-confinement scans (global / receiver stores) over the wire-reachable call graph + lockset (guarded-by) dataflow with gen/kill on Lock/Unlock',
+         'Structural necessary conditions only: wire-reachable code writes no package-level state, shared server objects are never written through their receivers, the sqlite store signs with the secret it read back, and the service-info pipes access their buffer/error/channels only under their mutexes (one reviewed exception). Race freedom in general, deadlock freedom, lost wake-ups and isolation inside other backends are properties of schedules and are not decided.',
+         'Trusts go/types+go/ssa; lock identity is by canonical receiver address within one function; the guarded-field table and its single exception are in /verif/checker/c19.go.', 'DESIGN.md §2 C19'),
+
  'C10': ('peer-taint analysis over the class-hierarchy call graph + guard obligations (explicit panics, partial lookups, allocations, compiler-unproven bounds, stdlib preconditions, type assertions) + must-pass dataflow',
          'Structural necessary conditions over all code reachable from the wire entry points: no explicit panic, unbounded allocation, unguarded index/slice (among those the Go compiler could not prove), unguarded stdlib precondition or unchecked type assertion is reachable with a peer-controlled operand without a dominating guard; responders convert failures to error messages; content-length guards dominate body processing. Nil dereferences, hangs, CPU and memory below the bounds are not decided.',
          'Trusts go/types+go/ssa, the Go compiler\'s prove pass (bounds-check elimination) as discharge oracle, the taint source/sink tables and three reviewed tables (panics, bounds, preconditions: one reason per entry) in /verif/checker/e3.go; values from the state store, callbacks and registries are assumed not attacker-controlled.', 'DESIGN.md §2 C10'),
